@@ -22,6 +22,7 @@ FORBIDDEN = re.compile(
     r"Unset\s+Guard\s+Checking|bypass_check|Admit\s+Obligations|Unset\s+Universe\s+Checking|"
     r"Unset\s+Positivity\s+Checking|type_in_type|Extract|Extraction)\b")
 
+LAST_COUNT = 0
 ALLOWED_AXIOMS = set()  # every property theorem is expected to be closed under the global context
 
 ENV = dict(os.environ, CARGO_NET_OFFLINE="true")
@@ -317,11 +318,16 @@ def coq_eval(prop, header, case_terms, runner, shard=400, tag="cases", timeout=1
         return base, re.sub(r"\s+", "", m.group(1)), None
 
     bad, errors = {}, []
+    global LAST_COUNT
+    LAST_COUNT = 0
     with concurrent.futures.ThreadPoolExecutor(max_workers=NPROC) as ex:
         for base, rep, err in ex.map(one, shards):
             if err:
                 errors.append("shard %d: %s" % (base, err))
                 continue
+            if "#" in rep:
+                rep, cnt = rep.rsplit("#", 1)
+                LAST_COUNT += int(cnt)
             for item in filter(None, rep.split(";")):
                 idx, flags = item.split(":")
                 bad[base + int(idx)] = (flags[0] == "T", flags[1] == "T")
